@@ -28,7 +28,7 @@ RULE = (
     "in between), R raises two events, S calls interpreter.send() from inside an action, B calls send_events() from inside "
     "an action, T enters a state with an eventless follow-up chain, W arms an after-timer and a service that complete while "
     "later events are being processed; START variants raise / send during the initial entry, with a suspending entry action "
-    "behind them (async), or with an eventless follow-up in the initial configuration whose action and target entry suspend. Sync: every operation sequence up to the length bound; async: every environment script (ops at grid "
+    "behind them (async), or with an eventless follow-up in the initial configuration whose action and target entry suspend, or which itself raises and sends. Sync: every operation sequence up to the length bound; async: every environment script (ops at grid "
     "instants incl. the same instant) x every schedule choice. Oracle: processed multiset = accepted multiset (exactly once), "
     "per-sender FIFO, every marker carries the event of the macrostep it runs in, bracket markers of one action list are never "
     "separated by another event's reception, nothing is received before the initial entry has finished, legal final "
@@ -111,6 +111,9 @@ def make(engine: str, variant: str, rec) -> Dict[str, Any]:
         root_entry += [A.raise_({"type": "T", "n": 0}), "mk:en_m2"]
         a_entry += ["suspend", "mk:en_a2"]
 
+    elif variant == "start-always-raise":
+        # the eventless follow-up of the initial configuration itself raises / sends: still part of the initial macrostep
+        pass
     elif variant == "start-always":
         # the initial configuration has an eventless follow-up whose action suspends; an event raised by the root's entry
         # must wait until that follow-up has completed (the initial macrostep includes its always transitions)
@@ -123,11 +126,19 @@ def make(engine: str, variant: str, rec) -> Dict[str, Any]:
         def resend0(interp, ctx, ev, ad):
             interp.send("X", n=0)
 
+    if is_async:
+        async def resend0y(interp, ctx, ev, ad):
+            await interp.send("Y", n=0)
+    else:
+        def resend0y(interp, ctx, ev, ad):
+            interp.send("Y", n=0)
+
     cfg = {
         "id": "m", "initial": "a", "context": {"k": 0}, "entry": root_entry,
         "states": {
             "a": {"entry": a_entry, "initial": "a1",
-                  "states": {"a1": dict({"entry": ["mk:en_a1"]}, **({"always": {"target": "a2", "actions": ["mk:alw0s", "suspend", "mk:alw0e"]}} if variant == "start-always" else {})),
+                  "states": {"a1": dict({"entry": ["mk:en_a1"]}, **({"always": {"target": "a2", "actions": ["mk:alw0s", "suspend", "mk:alw0e"]}} if variant == "start-always" else
+                                             {"always": {"target": "a2", "guard": "first_time", "actions": [A.assign({"k2": 1}), "mk:alw0s", A.raise_({"type": "X", "n": 0}), "resend0y", "suspend", "mk:alw0e"]}} if variant == "start-always-raise" else {})),
                              "a2": {"entry": ["suspend", "mk:en_a2x"]}},
                   "on": {"T": "b", "W": "w"}},
             "b": {"entry": ["mk:en_b"], "always": [{"target": "c", "actions": ["mk:alw1"]}]},
@@ -147,8 +158,8 @@ def make(engine: str, variant: str, rec) -> Dict[str, Any]:
             "Y": {"actions": ["mk:y"]},
         },
     }
-    return dict(cfg=cfg, actions={"work": work, "resend": resend, "resend_batch": resend_batch, "resend_batch_t": resend_batch_t, "suspend": suspend, "resend0": resend0},
-                services={"svc": svc}, guards={"once": lambda c, e, p=None: c.get("k", 0) == 0})
+    return dict(cfg=cfg, actions={"work": work, "resend": resend, "resend_batch": resend_batch, "resend_batch_t": resend_batch_t, "suspend": suspend, "resend0": resend0, "resend0y": resend0y},
+                services={"svc": svc}, guards={"once": lambda c, e, p=None: c.get("k", 0) == 0, "first_time": lambda c, e, p=None: c.get("k2", 0) == 0})
 
 
 BRACKETS = {"mk:e1": "mk:e2", "mk:r1": "mk:r2", "mk:s1": "mk:s2", "mk:b1": "mk:b2", "mk:alw0s": "mk:en_a2x", "mk:en_m": None}
@@ -169,8 +180,10 @@ def judge(variant: str, engine: str, sent: List[Tuple[str, int]], log: List[tupl
             expect += [("X", n), ("Y", n)]
         elif t == "BT":
             expect += [("T", n), ("X", n), ("Y", n)]
-    if variant in ("start-raise", "start-send", "start-always"):
+    if variant in ("start-raise", "start-send", "start-always", "start-always-raise"):
         expect.append(("X", 0))
+    if variant == "start-always-raise":
+        expect.append(("Y", 0))
     elif variant == "start-go":
         expect.append(("T", 0))
     evs = [(e[1], e[2]) for e in log if e[0] == "EV" and not str(e[1]).startswith(INTERNAL_PREFIX) and e[1] != ""]
@@ -275,7 +288,7 @@ def run_one(engine: str, variant: str, script, prefix=None):
     return results, n, capped
 
 
-VARIANTS = ("plain", "start-raise", "start-send", "start-go", "start-always")
+VARIANTS = ("plain", "start-raise", "start-send", "start-go", "start-always", "start-always-raise")
 
 
 PREEMPT = {
@@ -300,6 +313,8 @@ def units(tier: str) -> List[Any]:
         b = bq if tier == "quick" else bt
         for root in split(P, variant, b):
             us.append(("preempt", variant, (b, root)))
+    for M in (2, 3):
+        us.append(("burst", M, 3 * M))
     for engine in ENGINES:
         maxlen = (3 if tier == "quick" else 4) if engine == "sync" else (2 if tier == "quick" else 3)
         sc = scripts(maxlen, engine)
@@ -312,6 +327,18 @@ def units(tier: str) -> List[Any]:
 
 
 def run_unit(unit):
+    if unit[0] == "burst":
+        # more outside events than maxIterations arrive while an async action of the current macrostep is suspended (the
+        # case itself lives in C13's BURST family; here it is judged as C04's "no volume of external sends loses an event")
+        from . import c13
+
+        r = c13.run_unit(("burst", "during-suspended-action", unit[1], unit[2], None))
+        for v in r["violations"]:
+            v["signature"] = "C04|event-lost|async|burst-during-suspended-action"
+            v["replay"] = dict(engine="burst", M=unit[1], B=unit[2])
+        r["distinct"] = [hash(("burst", unit[1], unit[2]))]
+        r.pop("distinct_count", None)
+        return r
     engine, variant, batch = unit
     res = dict(states=0, transitions=0, executions=0, evaluations=0, distinct=[], violations=[], samples=[], caps=[])
     if engine == "preempt":
@@ -347,6 +374,11 @@ def run_unit(unit):
 
 
 def replay(payload):
+    if payload["engine"] == "burst":
+        r = run_unit(("burst", payload["M"], payload["B"]))
+        for v in r["violations"]:
+            print("  ", v["what"][:300])
+        return r["violations"]
     if payload["engine"] == "preempt":
         from . import c04_preempt as P
 
